@@ -17,8 +17,8 @@ fuzz_target!(|data: &[u8]| {
     }
     let ci = data[0] & 1 == 1;
     let split_at = 1 + (data[1] as usize % (data.len() - 1));
-    let glob: String = data[2..split_at.max(2)].iter().take(12).map(|b| TOK[*b as usize % TOK.len()]).collect();
-    let path: String = data[split_at.max(2)..].iter().take(12).map(|b| PCH[*b as usize % PCH.len()]).collect();
+    let glob: String = data[2..split_at.max(2)].iter().take(8).map(|b| TOK[*b as usize % TOK.len()]).collect();
+    let path: String = data[split_at.max(2)..].iter().take(10).map(|b| PCH[*b as usize % PCH.len()]).collect();
     let Ok(ast) = glob::parse(&glob) else { return };
     let opts = if ci { PatternOpts::case_insensitive() } else { PatternOpts::default() };
     let pat = match Pattern::glob_with(&glob, &opts) {
